@@ -100,16 +100,16 @@ func (g *w5GateEngine) Commit(off int64, meta []byte, safe int64) error {
 }
 
 type w5Op struct {
-	kind  string // insert, insert_fail, read_do, view
-	s     string
-	done  bool
-	err   error
-	off   int64 // dbOffset returned
+	kind string // insert, insert_fail, read_do, view
+	s    string
+	done bool
+	err  error
+	off  int64 // dbOffset returned
 	// read_do: binlog offset of the state the read saw, and the committed binlog offset when Do returned
 	seenDBOff, commitAtReturn int64
-	rows  []string
-	call  uint64
-	panic string
+	rows                      []string
+	call                      uint64
+	panic                     string
 }
 
 type w5Client struct {
@@ -133,16 +133,16 @@ type w5World struct {
 	r *verifsim.Run
 	c *verifsim.Choices
 
-	dir    string
-	ndir   int
-	memfs  *gofs.InMemoryFS
-	eng    *Engine
-	mode   DurabilityMode
-	every  time.Duration
-	gate       bool
-	parked     []chan struct{}
-	parkedDisk []w5Parked
-	takeImage  func(at string)
+	dir              string
+	ndir             int
+	memfs            *gofs.InMemoryFS
+	eng              *Engine
+	mode             DurabilityMode
+	every            time.Duration
+	gate             bool
+	parked           []chan struct{}
+	parkedDisk       []w5Parked
+	takeImage        func(at string)
 	insertsSinceIdle int
 	armedCancel      context.CancelFunc // cancels the context of the write that is about to reach sqlite.do.after_fn
 	mustDrain        bool
@@ -277,13 +277,50 @@ func w5Run(t *testing.T, r *verifsim.Run) {
 		if r.Failed() {
 			return
 		}
+		// Close while binlog I/O is still pending (the disk is slow): Close asks the binlog to shut down and
+		// must not commit SQLite before the binlog has committed everything the database holds. Crash
+		// images keep being taken at the engine's hook points and before every disk operation.
+		closedWithPendingIO := false
+		idleClients := true
+		for _, cl := range w.clients {
+			idleClients = idleClients && !cl.busy
+		}
+		if gated && idleClients && len(w.parkedDisk) > 0 && !w.ioFired && w.lockFree() && c.Intn(2, "close_with_pending_binlog_io") == 1 {
+			r.Probe("close_with_binlog_io_pending")
+			r.Sched("close", "engine")
+			r.Event("engine", "Close with %d binlog disk operation(s) parked", len(w.parkedDisk))
+			// the periodic commit is stopped first: while Close holds the connection lock and waits for the
+			// binlog, a periodic commit would wait on that mutex, which freezes the simulated clock
+			w.eng.stop()
+			closeDone := false
+			go func() { _ = w.eng.Close(context.Background()); closeDone = true }()
+			for i := 0; i < 2000 && !closeDone; i++ {
+				verifsim.Wait()
+				if closeDone {
+					break
+				}
+				if len(w.parkedDisk) > 0 {
+					w.releaseOne(true)
+				} else {
+					time.Sleep(10 * time.Millisecond)
+				}
+			}
+			if !closeDone {
+				r.Fail("C17", "close_hang", "close", "Close did not return although every binlog disk operation was let through")
+				return
+			}
+			closedWithPendingIO = true
+		}
 		// stop the live engine, then verify every image taken in this phase
 		w.takeImage = nil
 		w.gate = false
 		w.releaseAll()
 		verifhook.SetOnPoint(nil)
 		w.memfs.SetSimHooks(nil)
-		hung := w.drain()
+		hung := false
+		if !closedWithPendingIO {
+			hung = w.drain()
+		}
 		if hung && !w.ioFired {
 			r.Fail("C17", "op_hang", "hang", "operations still in flight after all commit notifications were delivered and time passed, without any injected disk fault")
 			return
@@ -291,8 +328,12 @@ func w5Run(t *testing.T, r *verifsim.Run) {
 		if hung {
 			r.Probe("ops_hang_after_binlog_disk_fault")
 		}
-		liveClosed := false
-		if !hung {
+		liveClosed := closedWithPendingIO
+		if closedWithPendingIO {
+			time.Sleep(w.eng.opt.CommitEvery + 100*time.Millisecond)
+			verifsim.Wait()
+		}
+		if !hung && !closedWithPendingIO {
 			if err := w5CloseEngine(w.eng); err != nil {
 				r.Probe("close_error")
 			}
